@@ -600,6 +600,21 @@ func genHeaders(t *rapid.T, label string, names []string, max int) []HeaderKV {
 	return out
 }
 
+// HostileReasons are error texts that are legal for an error value but hostile
+// to careless formatting or framing of the response body: printf verbs,
+// percent-encoded text, braces, backslashes, line breaks, a fake response
+// head, bytes outside ASCII, and texts longer than the write buffers.
+var HostileReasons = []string{"%", "100% denied", "no %2Fadmin for you", "%d", "%s%s%s", "%!", "%zz", "50%", "%v %+v %#v %T %%", "%!(EXTRA string=x)",
+	"{}", "{0} ${x} #{y}", "back\\slash \\n \\r\\n \\", "line1\r\nline2", "\r\n\r\nHTTP/1.1 200 OK\r\nContent-Length: 0\r\n\r\n", "Content-Length: 0", "tab\there", "nul\x00byte \xff\xfe", "caf\u00e9 \u20ac",
+	strings.Repeat("long reason ", 60), strings.Repeat("%", 600), strings.Repeat("x", 5000)}
+
+func genReason(t *rapid.T, label, who string) string {
+	if rapid.IntRange(0, 2).Draw(t, label+".hostile") == 0 {
+		return rapid.SampledFrom(HostileReasons).Draw(t, label+".h")
+	}
+	return rapid.SampledFrom([]string{who + " says no", "denied by " + who, "", who + ": a rather long explanation of why this request was not acceptable to the application layer"}).Draw(t, label)
+}
+
 func genOutcome(t *rapid.T, label, who string, bad bool, acceptHdr bool) Outcome {
 	if !bad {
 		if rapid.Bool().Draw(t, label+".set") {
@@ -611,7 +626,7 @@ func genOutcome(t *rapid.T, label, who string, bad bool, acceptHdr bool) Outcome
 		}
 		return Outcome{Kind: CbNil}
 	}
-	reason := rapid.SampledFrom([]string{who + " says no", "denied by " + who, "", who + ": a rather long explanation of why this request was not acceptable to the application layer"}).Draw(t, label+".reason")
+	reason := genReason(t, label+".reason", who)
 	if rapid.Bool().Draw(t, label+".plain") {
 		return Outcome{Kind: CbError, Reason: reason}
 	}
@@ -649,9 +664,9 @@ func GenConfig(t *rapid.T, label string, kind Kind, plan Plan) *Config {
 		switch {
 		case plan.ExtFail[i]:
 			if rapid.Bool().Draw(t, label+".ext.plain."+n) {
-				p = ExtPolicy{Act: ExtPlainError, Reason: "negotiation of " + n + " failed"}
+				p = ExtPolicy{Act: ExtPlainError, Reason: genReason(t, label+".ext.reason."+n, "Negotiate("+n+")")}
 			} else {
-				p = ExtPolicy{Act: ExtReject, Status: rapid.SampledFrom(rejectStatusesOr0).Draw(t, label+".ext.status."+n), Reason: "no " + n + " here",
+				p = ExtPolicy{Act: ExtReject, Status: rapid.SampledFrom(rejectStatusesOr0).Draw(t, label+".ext.status."+n), Reason: genReason(t, label+".ext.reason."+n, "Negotiate("+n+")"),
 					Headers: genHeaders(t, label+".ext.hdr."+n, []string{"X-Reject-Why", "X-Rej-B"}, 2)}
 			}
 		default:
